@@ -219,6 +219,20 @@ func cmdCheck(args []string) int {
 			}
 		}
 	}
+	// lemmas used by the functions under contract are proved in the same run
+	for _, vc := range vcs {
+		for _, ul := range vc.usedLemmas {
+			found := false
+			for _, ln := range ps.Lemmas {
+				if ln == ul {
+					found = true
+				}
+			}
+			if !found {
+				ps.Lemmas = append(ps.Lemmas, ul)
+			}
+		}
+	}
 	for _, ln := range ps.Lemmas {
 		k := strings.LastIndex(ln, ".")
 		pkgKey, name := ln[:k], ln[k+1:]
